@@ -316,7 +316,34 @@ def r09_6(chk):
     chk.floor("R09.6", 2, "two accounting obligations")
 
 
+def _refound_by_name(fn):
+    """calls that look a node up by the .name of a node object"""
+    return [c for c in ast.walk(fn) if isinstance(c, ast.Call) and isinstance(c.func, ast.Attribute) and c.func.attr in ("get_node_matching_name", "_get_node_matching_name") and c.args and isinstance(c.args[0], ast.Attribute) and c.args[0].attr == "name"]
+
+
+def r09_7(chk):
+    chk.rule("R09.7", "a node is never re-found by its own name: inside the tree classes no lookup get_node_matching_name(<node>.name) is made with the name attribute of a node object -- names of internal nodes need not be unique (None, bootstrap supports as labels), the lookup returns the first match in preorder, so the operation then works on another branch; nodes of a copy are reached through tips (unique) or structurally")
+    m = chk.repo.module(TREE)
+    n = 0
+    for cname in ("TreeNode", "PhyloNode"):
+        ci = m.cls(cname)
+        for name, fn in ci.methods.items():
+            if not isinstance(fn, ast.FunctionDef):
+                continue
+            n += 1
+            hits = _refound_by_name(fn)
+            for c in hits:
+                chk.violation("R09.7", key(m, f"{cname}.{name}", f"re-finds a node by {norm(c.args[0])}"), m.loc(c), f"`{norm(c)}` looks a node up by the name of a node object: for a tree with duplicate or missing internal names (DndParser('((c:1,d:1)90:1,(a:1,b:1)90:4);')) the first match in preorder is another node, and the operation edits the wrong branch")
+            if not hits:
+                chk.ok("R09.7", key(m, f"{cname}.{name}", "no lookup by a node's own name"), m.loc(fn), "", nontrivial=False)
+    probe = ast.parse("def f(self):\n    tree = self.deepcopy()\n    node = tree.get_node_matching_name(climb_node.name)\n").body[0]
+    if not _refound_by_name(probe):
+        raise AnalysisError("R09.7 self-probe failed")
+    chk.floor("R09.7", 0, "expected-zero rule with embedded probe")
+
+
 def run(chk):
+    r09_7(chk)
     r09_6(chk)
     r09_1(chk)
     r09_2(chk)
